@@ -168,8 +168,8 @@ type Pools struct {
 
 func DefaultPools() *Pools {
 	return &Pools{
-		NIs:    []string{"DEFAULT", "VRF1", "VRF2"},
-		V4:     []string{"1.0.0.0/8", "2.2.0.0/16", "3.3.3.0/24", "4.4.4.4/32"},
+		NIs: []string{"DEFAULT", "VRF1", "VRF2"},
+		V4:  []string{"1.0.0.0/8", "2.2.0.0/16", "3.3.3.0/24", "4.4.4.4/32"},
 		// the last two are other spellings (upper-case hex, uncompressed zero groups): a prefix is the string the client sent
 		V6:     []string{"2001:db8::/32", "2001:db8:1::/48", "2001:db8:2::/64", "::/0", "2001:DB8:A:0::/64", "2001:db8:0:0:0:0:0:0/40"},
 		Labels: []uint64{100, 200, 300, 1048575},
